@@ -56,7 +56,8 @@ COMPONENTS = {
 PROBES = {"stale_accelerator": 1, "mismatched_accelerator": 1,
           "midx_points_at_removed_pack": 1, "commit_graph_used": 1,
           "bitmap_present": 1, "long_lived_queried": 1,
-          "two_octopus_merges": 1}
+          "two_octopus_merges": 1,
+          "refs_read_during_packed_refs_rewrite": 1}
 MIN_BUDGET = 120
 
 ACCEL = ["commit-graph", "midx", "bitmap", "packed-refs"]
@@ -93,6 +94,14 @@ def gen_plan(seed, tier):
                                     "bitmap"]),
             "long_lived": rng.random() < 0.6,
             "rewrite_after": rng.random() < 0.2,
+            # the long-lived node reads refs while the second process
+            # rewrites packed-refs (interleaved at system-call granularity)
+            "race": rng.choice([None, None, {
+                "policy": rng.choice(["uniform", "burst", "pct"]),
+                "writer": [rng.choice(["pack_refs", "delete_ref", "move_ref",
+                                       "new_ref_packed"])
+                           for _ in range(rng.randint(1, 3))],
+                "reads": rng.randint(1, 4)}]),
             "octopus": rng.choice([0, 0, 0, 0.3, 0.6]),
             "warm": rng.choice(["get_raw", "get_raw", "contains", "packs",
                                 "none"])}
@@ -205,7 +214,15 @@ def answers(repo, u, ids, absent, commits, pairs, tag="A"):
 def run_plan(plan):
     from dulwich.gc import garbage_collect
     from dulwich.repo import Repo
-    sim = Sim(seed=plan["seed"], sched={"policy": "sequential"},
+    race = plan.get("race") if plan.get("long_lived") else None
+    sched = {"policy": "sequential"}
+    if race:
+        sched = {"policy": race["policy"]}
+        if race["policy"] == "burst":
+            sched["p_switch"] = 0.15
+        if race["policy"] == "pct":
+            sched.update(depth=2, est_steps=300)
+    sim = Sim(seed=plan["seed"], sched=sched,
               clock={"step_lo_ns": 1000, "step_hi_ns": 1000})
     viols = []
     stats = {}
@@ -250,6 +267,7 @@ def run_plan(plan):
             r.refs[k] = v
         r.refs.set_symbolic_ref(b"HEAD", sorted(
             k for k in refs if k.startswith(b"refs/heads/"))[0])
+        model_refs = dict(refs)  # what the refs must read as, throughout
         # ---- write the accelerators
         acc = plan["accel"]
         if "packed-refs" in acc:
@@ -314,6 +332,7 @@ def run_plan(plan):
                 extra_ids += ids
                 commits.append(top)
                 w.refs[b"refs/heads/new%d" % si] = top
+                model_refs[b"refs/heads/new%d" % si] = top
             elif step == "pack_loose":
                 w.object_store.pack_loose_objects()
             elif step == "repack":
@@ -329,7 +348,9 @@ def run_plan(plan):
                                if k.startswith((b"refs/heads/h",
                                                 b"refs/tags/")))
                 if cands:
-                    del w.refs[rng.choice(cands)]
+                    dn = rng.choice(cands)
+                    del w.refs[dn]
+                    model_refs.pop(dn, None)
                 if step == "delete_then_gc":
                     garbage_collect(w, grace_period=None)
                     if "midx" in acc:
@@ -340,7 +361,13 @@ def run_plan(plan):
                 alive = [c for c in commits if
                          all(i in w.object_store for i in u.closure([c]))]
                 if cands and alive:
-                    w.refs[rng.choice(cands)] = rng.choice(alive)
+                    mn = rng.choice(cands)
+                    # sometimes back to the value packed-refs still records
+                    mv = refs.get(mn) if (rng.random() < 0.4 and
+                                          refs.get(mn) in alive) else \
+                        rng.choice(alive)
+                    w.refs[mn] = mv
+                    model_refs[mn] = mv
             elif step == "shallow":
                 c = rng.choice(commits)
                 if c not in w.object_store:
@@ -363,6 +390,46 @@ def run_plan(plan):
                               "wb") as f:
                         f.write(c + (b" " + b" ".join(newp) if newp else b"")
                                 + b"\n")
+        if race and node_c is not None:
+            stats["probe:refs_read_during_packed_refs_rewrite"] = 1
+
+            def writer_body(a):
+                for j, wop in enumerate(race["writer"]):
+                    heads_ = sorted(k for k in w.refs.allkeys()
+                                    if k.startswith(b"refs/heads/h"))
+                    if wop == "pack_refs":
+                        w.refs.pack_refs(all=True)
+                    elif wop == "delete_ref" and len(heads_) > 1:
+                        dn = heads_[-1]
+                        del w.refs[dn]
+                        model_refs.pop(dn, None)
+                    elif wop == "move_ref" and heads_:
+                        alive_ = [c_ for c_ in commits if all(
+                            i in w.object_store for i in u.closure([c_]))]
+                        if alive_:
+                            w.refs[heads_[0]] = alive_[j % len(alive_)]
+                            model_refs[heads_[0]] = alive_[j % len(alive_)]
+                    elif wop == "new_ref_packed":
+                        nn = b"refs/heads/raced%d" % j
+                        w.refs[nn] = commits[0]
+                        model_refs[nn] = commits[0]
+                        w.refs.pack_refs(all=True)
+
+            def reader_body(a):
+                for _ in range(race["reads"]):
+                    try:
+                        node_c.refs.as_dict()
+                    except Exception:  # noqa: BLE001 - judged afterwards
+                        pass
+            sim.actor("w", writer_body)
+            sim.actor("c", reader_body)
+            sim.run()
+            if sim.abort_reason:
+                viol(f"race-phase/{sim.abort_reason}", "")
+            for a_ in sim.actors:
+                if a_.exc is not None:
+                    viol(f"race-phase-exception/{a_.name}/"
+                         f"{type(a_.exc).__name__}", repr(a_.exc)[:300])
         if plan["rewrite_after"]:
             # accelerators refreshed after the history moved on
             if "commit-graph" in acc:
@@ -472,6 +539,15 @@ def run_plan(plan):
             if got not in ("KeyError", u.objs[oid]):
                 viol("reference-node-disagrees-with-model/get_raw",
                      f"{oid}: {got!r:.80}")
+        want_refs = {k: v for k, v in model_refs.items()}
+        got_refs = ans_b.get("refs")
+        if isinstance(got_refs, tuple):
+            got_map = {k: v for k, v in got_refs if k != b"HEAD"}
+            if got_map != want_refs:
+                diff = sorted(set(got_map.items()) ^ set(want_refs.items()))
+                viol("reference-node-disagrees-with-model/refs",
+                     f"refs on disk differ from what was written: "
+                     f"{diff[:4]}")
         what = "+".join(sorted(acc)) or "none"
         ctx = f"accel={acc} idx=v{plan['idx_version']} stale={plan['stale']} " \
               f"mismatch={plan['mismatch']} rewrite={plan['rewrite_after']}"
@@ -537,6 +613,10 @@ def shrink(plan):
             p = cp()
             p["accel"].remove(a)
             yield p
+    if plan.get("race"):
+        p = cp()
+        p["race"] = None
+        yield p
     for k, v in (("octopus", 0), ("warm", "get_raw")):
         if plan.get(k, v) != v:
             p = cp()
